@@ -323,3 +323,8 @@ func specArgsOK(specs []argSpec, args []interface{}) bool {
 	}
 	return len(args) == len(specs) && specArgsFrom(specs, args, 0)
 }
+
+// ---------------------------------------------------------------------------
+// Built-in functions (C09).
+
+func specAbs(f float64) float64 { return math.Abs(f) }
